@@ -53,7 +53,7 @@ fn legal_lower(n: &str) -> bool {
 /// A small accepted grammar exercising every fieldset shape.
 fn accepted_model(rng: &mut Rng) -> Option<Model> {
     for _ in 0..12 {
-        let (cfg, force) = if rng.chance(0.6) { crate::gen::structured_cfg(rng) } else { let (_, c, f) = crate::gen::grammar_for_case(rng, u64::MAX); (c, f) };
+        let (cfg, force) = if rng.chance(0.6) { crate::gen::structured_cfg(rng) } else { let (_, c, f) = crate::gen::small_grammar(rng); (c, f) };
         if cfg.nn > 6 || cfg.rules.len() > 14 {
             continue;
         }
@@ -423,7 +423,19 @@ fn client_source(m: &Model) -> String {
 
 pub fn c06_case(seed: u64, idx: u64) -> Option<(Model, String, String)> {
     let mut rng = Rng::for_case(seed, "compile-C06", idx);
-    let mut m = accepted_model(&mut rng)?;
+    let mut m = if idx % 12 == 11 {
+        // many terminals / many variants / long right-hand sides
+        let (cfg, force) = crate::gen::big_cfg(&mut rng, 120);
+        let r = lr::build_reference(&cfg, 3000)?;
+        if r.lalr_conflict {
+            return None;
+        }
+        let mut m = model_from_cfg(&cfg, &force);
+        assign_random_shapes(&mut m, &mut rng, 0.7);
+        m
+    } else {
+        accepted_model(&mut rng)?
+    };
     // systematically cover all masks x styles for k <= 3 on the first production
     if let Some(p) = m.nts.iter_mut().flat_map(|n| n.prods.iter_mut()).find(|p| !p.fields.is_empty() && p.fields.len() <= 3) {
         let k = p.fields.len();
